@@ -83,6 +83,9 @@ package db
 //@   guard-call stmt: "Exec" prefixof("INSERT INTO TS_Links ", lastarg(Prepare, 1)) && len(arg(1)) == 2 && bindI("ParentAgentID") == ParentAgentID && bindI("LinkAgentID") == LinkAgentID
 //@ func (db *DB) LinkRemove(ParentAgentID int, LinkAgentID int) (err error)
 //@   requires nonnil: db != nil && db.db != nil
+//   ghost counter of link rows the database was asked to delete (no code reads it)
+//@   modifies ghostint(db, "linkdel")
+//@   ghost-def ghostint(db, "linkdel") = old(ghostint(db, "linkdel")) + 1
 //@   guard-call stmt: "Exec" prefixof("DELETE FROM TS_Links WHERE ", lastarg(Prepare, 1)) && contains(lastarg(Prepare, 1), " AND ") && len(arg(1)) == 2 && bindI("ParentAgentID") == ParentAgentID && bindI("LinkAgentID") == LinkAgentID
 //@ func (db *DB) LinkExist(ParentAgentID int, LinkAgentID int) (r bool)
 //@   requires nonnil: db != nil && db.db != nil
